@@ -1,6 +1,6 @@
 (* Corr/C13Corr.v — case checkers for the C13 correspondence.
    The model (Model/Sim.v) is instantiated with the exact simulator Common/QSim.v and evaluated on the program
-   the implementation ran on; keys are compared exactly and in dict order, probabilities within 1e-12. *)
+   the implementation ran on; results are compared as finite maps: key sets exactly, probabilities within 1e-12. *)
 From Coq Require Import QArith Qabs.
 From CKT Require Import Common.Base Common.QSim Model.Sim Extracted.Facts.
 Close Scope Q_scope.
@@ -36,6 +36,22 @@ Fixpoint audit (p : qprog) (s : vec) : bool :=
   | PGateWithClbit :: _ => true
   end.
 
+(* finite-map comparison: the order of a returned dict is not part of the contract (the model does mirror it,
+   see Properties/C13.v c13_ex_order, and chk_sim_ordered below can be used to look for drift) *)
+Definition nodup_keys (a : list (N * Q)) : bool :=
+  (fix go (l : list N) : bool :=
+     match l with [] => true | k :: r => negb (existsb (N.eqb k) r) && go r end) (map fst a).
+
+Definition keys_incl (a b : list (N * Q)) : bool :=
+  forallb (fun k => existsb (N.eqb k) (map fst b)) (map fst a).
+
+Definition map_close (eps : Q) (a b : list (N * Q)) : bool :=
+  forallb (fun k => qclose eps (lookup a k) (lookup b k)) (map fst a ++ map fst b).
+
+(* same key set (exactly), no duplicate keys, values within eps *)
+Definition map_eqv (eps : Q) (a b : list (N * Q)) : bool :=
+  nodup_keys a && nodup_keys b && keys_incl a b && keys_incl b a && map_close eps a b.
+
 (* (nq, ncl, program, simulate_statevector_outcomes result, ExactSampler result, harness density oracle agreed) *)
 Definition sim_case := (nat * nat * qprog * res (list (N * Q)) * res (list (N * Q)) * bool)%type.
 
@@ -43,22 +59,41 @@ Definition chk_sim (c : sim_case) : bool :=
   let '(nq, ncl, p, efn, esam, oracle_ok) := c in
   oracle_ok &&
   audit p (init_vec nq) &&
+  res_beq (map_eqv eps_model) (qsimulate sim_tolerance nq p) efn &&
+  res_beq (map_eqv eps_model) (qsampler sim_tolerance nq ncl p) esam &&
+  match efn, esam with Ok a, Ok b => map_eqv 0 a b | _, _ => true end.
+
+(* stricter variant, not used for the verdict: keys in the model's dict order *)
+Definition chk_sim_ordered (c : sim_case) : bool :=
+  let '(nq, ncl, p, efn, esam, oracle_ok) := c in
   res_beq (dist_close eps_model) (qsimulate sim_tolerance nq p) efn &&
-  res_beq (dist_close eps_model) (qsampler sim_tolerance nq ncl p) esam &&
   match efn, esam with Ok a, Ok b => dist_same a b | _, _ => true end.
 
-(* tolerance stream (arbitrary unitaries): implementation vs the harness's density-matrix oracle, as maps *)
-Definition map_close (eps : Q) (a b : list (N * Q)) : bool :=
-  forallb (fun k => qclose eps (lookup a k) (lookup b k)) (map fst a ++ map fst b).
-
-Definition nodup_keys (a : list (N * Q)) : bool :=
-  (fix go (l : list N) : bool :=
-     match l with [] => true | k :: r => negb (existsb (N.eqb k) r) && go r end) (map fst a).
-
-Definition chk_dist (c : res (list (N * Q)) * list (N * Q)) : bool :=
-  let '(impl, oracle) := c in
+(* implementation vs the harness's density-matrix oracle, as maps (keys may differ by outcomes of
+   probability <= eps_oracle: the implementation truncates, the oracle does not) *)
+Definition dist_vs_oracle (impl : res (list (N * Q))) (oracle : list (N * Q)) : bool :=
   match impl with
   | Ok a => nodup_keys a && map_close eps_oracle a oracle && qclose eps_oracle (total a) 1
+  | _ => false
+  end.
+
+(* tolerance stream (arbitrary unitaries): (function result, Some sampler result | None when Qiskit's
+   pre-validation legitimately refused, oracle) *)
+Definition chk_dist (c : res (list (N * Q)) * option (res (list (N * Q))) * list (N * Q)) : bool :=
+  let '(fn, sam, oracle) := c in
+  dist_vs_oracle fn oracle &&
+  match sam with
+  | None => true
+  | Some s => dist_vs_oracle s oracle && match fn, s with Ok a, Ok b => map_eqv 0 a b | _, _ => false end
+  end.
+
+(* sampler stream: one ExactSampler.run over several (parametrised) circuits: quasi_dists[i] vs the oracle's
+   distribution of the i-th bound circuit *)
+Definition chk_multi (c : res (list (list (N * Q))) * list (list (N * Q))) : bool :=
+  let '(impl, oracles) := c in
+  match impl with
+  | Ok ds => Nat.eqb (length ds) (length oracles) &&
+             forallb (fun p => dist_vs_oracle (Ok (fst p)) (snd p)) (combine ds oracles)
   | _ => false
   end.
 
